@@ -3,3 +3,27 @@
 // each is the documented meaning of the std function and is checked by Kani over the full domain
 // in /verif/kani/src/int_facts.rs). [K]
 // ---------------------------------------------------------------------------------------------
+
+pub assume_specification [ i32::abs ](x: i32) -> (r: i32)
+    requires x > i32::MIN,
+    ensures r as int == (if x < 0 { -(x as int) } else { x as int }),
+;
+
+pub assume_specification [ i32::signum ](x: i32) -> (r: i32)
+    ensures r as int == (if x > 0 { 1int } else if x == 0 { 0int } else { -1int }),
+;
+
+pub assume_specification [ i32::rem_euclid ](x: i32, rhs: i32) -> (r: i32)
+    requires rhs != 0, !(x == i32::MIN && rhs == -1),
+    ensures rhs > 0 ==> r as int == (x as int) % (rhs as int),
+;
+
+pub assume_specification [ i8::unsigned_abs ](x: i8) -> (r: u8)
+    ensures r as int == (if x < 0 { -(x as int) } else { x as int }),
+;
+
+pub assume_specification [ <i32 as TryFrom<u32>>::try_from ](x: u32) -> (r: Result<i32, <i32 as TryFrom<u32>>::Error>)
+    ensures
+        x <= 0x7fff_ffff ==> r == Ok::<i32, <i32 as TryFrom<u32>>::Error>(x as i32),
+        x > 0x7fff_ffff ==> r.is_err(),
+;
